@@ -62,7 +62,7 @@ CHECKS.update({
 
 CHECKS.update({
     "C04": dict(
-        text="The real merger.c/heap.c are run over harness array sources (which invalidate previously returned buffers on every call) for families of 0..3 sources covering interleaved, overlapping, disjoint and empty sources, the empty key, prefixes and 0xff; every value byte is a solver variable, so 'each value folded exactly once' is decided for all values; merge function, none, dupsort and a failing merge callback; full drain. Found F2 (fixed).",
+        text="The real merger.c/heap.c are run over harness array sources (which invalidate previously returned buffers on every call) for families of 0..3 sources covering interleaved, overlapping, disjoint and empty sources, the empty key, prefixes and 0xff; every value byte is a solver variable, so 'each value folded exactly once' is decided for all values; merge function, none, dupsort and a failing merge callback; full drain. libmy/heap.c is additionally decided alone for every content of <= 4 items (symbolic keys; push or add+heapify; minimum replaced up to three times; drained) and through 5- and 7-source families. Found F2 (fixed).",
         note="Keys are concrete (a symbolic key would make the heap order symbolic); input sources are contract models of the reader (C02/C03 check the reader against that contract); mtbl_merge tool not encoded.",
         ref="DESIGN.md 4 C04"),
     "C05": dict(
@@ -81,8 +81,8 @@ CHECKS.update({
         note="Detection for longer blocks rests on the polynomial's published properties plus C17; writer side (stores crc of stored bytes) is asserted in the C09 queries.",
         ref="DESIGN.md 4 C12"),
     "C18": dict(
-        text="Life-cycle queries of the sorter, reader, merger and writer harnesses, each ending with every object destroyed, run with CBMC's memory-leak check and ghost tables for descriptors, mappings and temp files: sorter destroyed before/after iteration, after refused adds, pooled with undelivered chunk jobs, with a failing merge callback; reader iterators abandoned; files that do not open; merger iterators of all kinds; writers with refused adds. Found F6, F7, F10, F11 (fixed).",
-        note="'All finite histories' is approximated by destroy-at-every-stage shapes; filesets/dups and real threads are not covered.",
+        text="Life-cycle queries of the sorter, reader, merger, writer, fileset and my_fileset harnesses, each ending with every object destroyed, run with CBMC's memory-leak check and ghost tables for descriptors, mappings and temp files: sorter destroyed before/after iteration, after refused adds, pooled with undelivered chunk jobs, with a failing merge callback; reader iterators abandoned; files that do not open; merger iterators of all kinds; writers with refused adds; filesets with a dup, open iterators, reloads and destroy in either order; the real my_fileset.c over setfile generations incl. repeated names (every loaded object destroyed exactly once). Found F6, F7, F10, F11, F12 (fixed).",
+        note="'All finite histories' is approximated by destroy-at-every-stage shapes; real threads are not covered; fileset.c and my_fileset.c meet at a contract, not in one query.",
         ref="DESIGN.md 4 C18"),
 })
 
